@@ -111,7 +111,7 @@ impl Property for C03 {
         "C03"
     }
     fn cases(&self, tier: Tier) -> u32 {
-        tier.pick(10_000, 120_000)
+        tier.pick(60_000, 600_000)
     }
     fn strategy(&self, tier: Tier) -> BoxedStrategy<AbsXz> {
         match tier {
